@@ -19,7 +19,8 @@ ASSUMPTIONS = [
 ]
 SHARDS = {"quick": 6, "thorough": 16}
 BUDGET_S = {"quick": 75, "thorough": 600}
-FLOORS = {"c01.queries": 1500, "c01.nontrivial": 500, "c01.path_checks": 10000, "c01.multiseg_with_deletions": 40}
+FLOORS = {"c01.queries": 1500, "c01.nontrivial": 500, "c01.path_checks": 10000, "c01.multiseg_with_deletions": 40,
+          "c01.stutter_phrase_queries": 300}
 
 PATHS = ["docs_for_query", "query.docs", "search", "unscored", "sorted", "terms", "limit", "page"]
 
@@ -150,6 +151,19 @@ def run(ctx):
             ctx.count("c01.staged_cases")
         else:
             h = model.gen_group_history(rng) if grouped else model.gen_history(rng, ndocs=(1, 45), boosts=rng.random() < 0.3, boolean=True)
+        stutter = (idx % 7 == 3) and not (big or staged or grouped)
+        if stutter:
+            # positional stress: texts over 3-4 words with immediate repetitions, so that a phrase with slop has several
+            # candidate occurrences of every word and the nearest one is often a dead end
+            words = rng.sample(model.VOCAB[:6], rng.choice([3, 3, 4]))
+            for c_ in h["commits"]:
+                for d in c_:
+                    toks, n = [], rng.randint(3, 12)
+                    while len(toks) < n:
+                        w_ = rng.choice(words) if rng.random() < 0.85 else rng.choice(model.VOCAB)
+                        toks.extend([w_] * rng.choice([1, 1, 2, 2, 3]))
+                    d["t"] = " ".join(toks[:14])
+            ctx.count("c01.stutter_cases")
         wname, wobj = gen_weighting(rng)
         if staged:
             from whoosh import scoring
@@ -195,6 +209,18 @@ def run(ctx):
                                                                        expected=sorted(exp, key=int)[:40]),
                                              "limit=%d returned %r" % (k, top))
                                     break
+                    elif stutter and rng.random() < 0.8:
+                        from whoosh import query
+                        q = query.Phrase("t", [rng.choice(words) for _ in range(rng.choice([2, 3, 3, 4, 5]))], slop=rng.choice([1, 2, 2, 3, 4]))
+                        r = rng.random()
+                        if r < 0.15:
+                            q = query.And([q, model.gen_leaf(rng, fuzzy=False)])
+                        elif r < 0.3:
+                            q = query.Or([q, model.gen_leaf(rng, fuzzy=False)])
+                        elif r < 0.4:
+                            q = query.AndNot(model.gen_leaf(rng, fuzzy=False), q)
+                        ctx.count("c01.stutter_phrase_queries")
+                        exp = check_query(ctx, rng, built, s, q, wb, wname)
                     elif big and rng.random() < 0.6:
                         from whoosh import query
                         q = query.Or([model.gen_leaf(rng, fuzzy=False) for _ in range(rng.randint(3, 5))])
